@@ -81,6 +81,33 @@ def r11_readiness_is_monotone(ck, cx, rule='R11'):
     ck.floor(rule, n, 2, 'true-paths of isFrameReady (ascii, binary)')
 
 
+def r12_reset_empties_the_buffer(ck, cx, rule='R12'):
+    """resetFrame() is what every recovery path relies on (the serving loops call it after a framer exception, the framers after a
+    failed check, the client before a new transaction): it has to leave NOTHING in the receive buffer.  A reset that keeps part of
+    the buffer keeps the misalignment that made the reset necessary."""
+    ck.rule(rule, 'resetFrame() of every framer leaves the receive buffer empty on every path')
+    from ..common import annotate
+    n = 0
+    for kind in KINDS:
+        cls, f, fps = framer_paths(cx, kind)
+        r = cx.method(cls, 'resetFrame')
+        ck.saw('functions', r.qn)
+        for p in cx.enum(r, cls, max_depth=2):
+            if p.exit and isinstance(p.exit, tuple) and p.exit[0] == 'exc':
+                continue
+            st = annotate(p, heap=True)
+            n += 1
+            v = st.heap.get('self._buffer')
+            folded = cx.ce.try_ev(v, r.mod, cls, default=None) if v is not None else None
+            empty = isinstance(v, ast.Constant) and v.value in (b'', '') or folded in (b'', '')
+            conds = [('' if e.a else 'not ') + U(getattr(e, '_sub', None) or e.node)[:40] for e in p.ev if e.kind == 'cond']
+            ck.ob(rule, r.qn, 'buffer is empty after resetFrame() [%s]' % '; '.join(conds)[:60], bool(empty), detail='reset-keeps-bytes', loc=cx.floc(r),
+                  message='%s framer: resetFrame() leaves `%s` in the buffer%s: the recovery paths that rely on it (after a framer exception, after a failed check, before a '
+                          'new transaction) keep the very bytes that put the receiver out of step, and it does not resynchronise'
+                          % (kind, U(v)[:60] if v is not None else 'the old contents', (' when ' + '; '.join(conds)[:80]) if conds else ''))
+    ck.floor(rule, n, 3, 'paths of resetFrame over the framers')
+
+
 def run(ck, tier):
     cx = Ctx()
     ck.rule('R1', 'progress on a corrupt complete frame: after a failed integrity check (checkCRC/checkLRC false) the buffer shrinks before processIncomingPacket returns')
@@ -185,6 +212,7 @@ def run(ck, tier):
     ck.rule('R9', 'the serial client discards stale input before every request on every framing (shared with C13 R5)')
     _imp(ck, 'C13', 'R9', ('R5',), 'noise or an abandoned reply left in the port shifts every later count-based read: the master never resynchronises')
     ck.guard(r11_readiness_is_monotone, ck, cx)
+    ck.guard(r12_reset_empties_the_buffer, ck, cx)
     from .. import strtypes as _st
     ck.rule('R10', 'hexlify_packets, evaluated with the receive buffer on every reset / processing path outside any log-level guard, is total: what it joins is text')
     ck.guard(_st.rule_join_total, ck, cx, 'R10', ('pymodbus.utilities.hexlify_packets',), 'resetFrame() raises before it clears the buffer: the backlog is never dropped and the serial handler dies in its own except branch')
